@@ -31,8 +31,53 @@ type TupleV []Value
 type ErrV struct{ code *Term }
 type NilV struct{}
 
-// StrV is a string of concrete length whose bytes may be symbolic.
-type StrV struct{ b []*Term }
+// StrV is a string of concrete length whose bytes may be symbolic; alt != nil makes
+// it a guarded choice between two strings (merge of strings of different length).
+type StrV struct {
+	b   []*Term
+	alt *strAlt
+}
+type strAlt struct {
+	c    *Term
+	x, y StrV
+}
+
+func strLen(s StrV) *Term {
+	if s.alt != nil {
+		return Ite(s.alt.c, strLen(s.alt.x), strLen(s.alt.y))
+	}
+	return C(64, uint64(len(s.b)))
+}
+
+func strConcat(a, b StrV) StrV {
+	if a.alt != nil {
+		return StrV{alt: &strAlt{a.alt.c, strConcat(a.alt.x, b), strConcat(a.alt.y, b)}}
+	}
+	if b.alt != nil {
+		return StrV{alt: &strAlt{b.alt.c, strConcat(a, b.alt.x), strConcat(a, b.alt.y)}}
+	}
+	return StrV{b: append(append([]*Term(nil), a.b...), b.b...)}
+}
+
+// strAt returns s[idx] (arbitrary where out of range) for a 64-bit index term.
+func strAt(s StrV, idx *Term) *Term {
+	if s.alt != nil {
+		return Ite(s.alt.c, strAt(s.alt.x, idx), strAt(s.alt.y, idx))
+	}
+	r := C(8, 0)
+	for i := len(s.b) - 1; i >= 0; i-- {
+		r = Ite(Cmp("eq", idx, C(64, uint64(i))), s.b[i], r)
+	}
+	return r
+}
+
+func (s StrV) plain(what string) StrV {
+	if s.alt != nil {
+		panic(engineErr("%s on a string that is a merge of strings of different length", what))
+	}
+	return s
+}
+
 type FuncV struct{ fn *ssa.Function }
 type ClosureV struct {
 	fn   *ssa.Function
@@ -55,9 +100,12 @@ func mkStr(s string) StrV {
 	for i := 0; i < len(s); i++ {
 		b[i] = C(8, uint64(s[i]))
 	}
-	return StrV{b}
+	return StrV{b: b}
 }
 func (s StrV) concrete() (string, bool) {
+	if s.alt != nil {
+		return "", false
+	}
 	out := make([]byte, len(s.b))
 	for i, t := range s.b {
 		if !t.isConst() {
@@ -68,6 +116,9 @@ func (s StrV) concrete() (string, bool) {
 	return string(out), true
 }
 func (s StrV) String() string {
+	if s.alt != nil {
+		return "<merged string>"
+	}
 	out := make([]byte, len(s.b))
 	for i, t := range s.b {
 		if !t.isConst() {
@@ -323,7 +374,13 @@ func sameValue(a, b Value) bool {
 		return ok
 	case StrV:
 		y, ok := b.(StrV)
-		if !ok || len(x.b) != len(y.b) {
+		if !ok {
+			return false
+		}
+		if x.alt != nil || y.alt != nil {
+			return x.alt == y.alt
+		}
+		if len(x.b) != len(y.b) {
 			return false
 		}
 		for i := range x.b {
@@ -451,14 +508,17 @@ func mergeValue(c *Term, a, b Value) (Value, bool) {
 		return SliceV{x.obj, x.path, Ite(c, x.off, y.off), Ite(c, x.len_, y.len_), Ite(c, x.cap_, y.cap_), x.scal}, true
 	case StrV:
 		y, ok := b.(StrV)
-		if !ok || len(x.b) != len(y.b) {
+		if !ok {
 			return nil, false
+		}
+		if x.alt != nil || y.alt != nil || len(x.b) != len(y.b) {
+			return StrV{alt: &strAlt{c, x, y}}, true
 		}
 		r := make([]*Term, len(x.b))
 		for i := range r {
 			r[i] = Ite(c, x.b[i], y.b[i])
 		}
-		return StrV{r}, true
+		return StrV{b: r}, true
 	case ArrV:
 		y, ok := b.(ArrV)
 		if !ok {
